@@ -111,13 +111,12 @@ def queries(ctx):
                           "enumerated": ["scenario: " + what, "keys %s" % (keys or KEYS)],
                           "bounds": {"threads": 2, "rounds": R, "levels": 3},
                           "functions": FUNCS + ["key_functions.* are indirect calls: atomic"], "stubs": STUBS + ["nanosleep (benign, elided)"]}))
-    conc(3, 2, ("quick", "thorough"), other=5)
-    conc(2, 2, ("quick", "thorough"), ro=RO_NORESIZE)
-    conc(4, 2, ("quick", "thorough"), ro=RO_NORESIZE)
-    for sc in (1, 3, 5, 6, 7):
-        conc(sc, 2, ("thorough",), keys=(KEYS[:3] + [KEYS[0]]) if sc == 5 else None)
-    for sc in (1, 2, 3, 4, 5, 6, 7):
-        conc(sc, 3, ("thorough",), keys=(KEYS[:3] + [KEYS[0]]) if sc == 5 else None)
+    # cost: ~40 yield points per operation after --ro-fields; 2 threads x 1-2 operations at R=2 = 5-8 M variables: thorough tier only
+    for sc in (2, 4, 6):
+        conc(sc, 2, ("thorough",), ro=RO_NORESIZE, timeout=5400)
+    for sc in (1, 3, 7):
+        conc(sc, 2, ("thorough",), other=5, timeout=5400)
+    conc(5, 2, ("thorough",), keys=KEYS[:3] + [KEYS[0]], other=5, timeout=5400)
     return qs
 def mutants(ctx):
     return [
